@@ -118,6 +118,8 @@ func (m *bsim) moreOutputs(ctx context.Context, moduleSet bufmodule.ModuleSet, i
 
 	// the image as the command line writes it for the same workspace on disk (flags in this execution's order)
 	if m.cliRoot != "" {
+		// executions alternate between the two copies of the workspace on disk
+		m.cliVariant = m.counters["executions"] % 2
 		_, data, err := m.cliBuild(ctx, m.cliRoot)
 		if err != nil {
 			return fmt.Errorf("buf build on disk: %w", err)
